@@ -1,8 +1,9 @@
 #!/bin/bash
-# bin/seed_batch.sh <PID>...   confirm + check every variant of the listed seed worktrees under /tmp/seed
-VARS="${SEED_VARIANTS:-A B}"; for p in "$@"; do for v in $VARS; do
-  d=/tmp/seed/$p/seed_out/$v
+# bin/seed_batch.sh <PID>...   confirm + check every variant of the listed seed worktrees under $SEED_ROOT (default /tmp/seed3)
+R="${SEED_ROOT:-/tmp/seed3}"
+VARS="${SEED_VARIANTS:-E F}"; for p in "$@"; do for v in $VARS; do
+  d=$R/$p/seed_out/$v
   [ -f $d/patch.diff ] || { echo "== $p-$v: no patch"; continue; }
-  echo "== $p-$v confirm: $(/verif/bin/seed_confirm.sh /tmp/seed/$p $d)"
+  echo "== $p-$v confirm: $(/verif/bin/seed_confirm.sh $R/$p $d)"
   echo "== $p-$v check: $(/verif/bin/seed_check.sh $d/patch.diff $p 2>&1 | tr '\n' ' ' | cut -c1-420)"
 done; done
